@@ -3,7 +3,7 @@ import ast
 
 from ..astutil import norm, const, NO, compare, tail, names
 from ..index import AnalysisError, walk_own
-from .common import (site, key, calls_to, method_calls, nodes_with, guard_check, stores_to_name, cfg_attr)
+from .common import (site, key, calls_to, method_calls, nodes_with, guard_check, stores_to_name, cfg_attr, rname)
 from . import c03, c04
 
 ARB = "gunicorn.arbiter.Arbiter"
@@ -126,6 +126,51 @@ def r1(ctx):
     ctx.check("C10.R1", not calls_to(repo, fh, ARB + ".stop") and not calls_to(repo, f, ARB + ".stop"), key(fh, "no-stop-on-hup"), site(fh), "HUP handling calls stop(): listeners would be closed", "reload never stops the arbiter")
 
 
+def setup_refresh(ctx, rid, attrs):
+    """setup() -- which runs at boot and again on every reload -- takes these arbiter fields from the (new) configuration,
+    unconditionally; nothing the arbiter derives from the configuration is assigned in __init__ only"""
+    repo = ctx.repo
+    fs = ctx.fn(repo.func(ARB + ".setup"))
+    for attr, cfgname in attrs:
+        st = [x for x in walk_own(fs.node) if isinstance(x, ast.Assign) and any(tail(t) == attr and tail(getattr(t, "value", None)) == "self" for t in x.targets)]
+        okk = bool(st) and (cfgname is None or any(cfg_attr(x.value) == cfgname for x in st))
+        sn = [n for x in st for n in fs.cfg.nodes_of(x)]
+        p = fs.cfg.path(fs.cfg.entry, [fs.cfg.exit], without_nodes=sn, follow_exc=False) if sn else [fs.cfg.entry]
+        ctx.check(rid, okk and p is None, key(fs, "setup|" + attr), site(fs), "setup() does not refresh self.%s from the (new) configuration on every path (conditional or missing assignment): "
+                  "after a reload the arbiter keeps the old value" % attr, "self.%s refreshed unconditionally" % attr, path=(p and fs.cfg.fmt_path(p)) if sn else None)
+    # generally: a field assigned from the configuration anywhere else in the arbiter is also assigned in setup()
+    cls = repo.cls(ARB)
+    in_setup = set(tail(t) for x in walk_own(fs.node) if isinstance(x, ast.Assign) for t in x.targets if isinstance(t, ast.Attribute) and tail(t.value) == "self")
+    for ff in cls.methods.values():
+        if ff is fs:
+            continue
+        for x in walk_own(ff.node):
+            if isinstance(x, ast.Assign) and any(cfg_attr(y) for y in ast.walk(x.value)) and not any(isinstance(y, ast.Call) for y in ast.walk(x.value)):
+                for t in x.targets:
+                    if isinstance(t, ast.Attribute) and tail(t.value) == "self" and t.attr not in ("pidfile",):
+                        ctx.check(rid, t.attr in in_setup, key(ff, "cfg-derived-outside-setup|" + t.attr), site(ff, x),
+                                  "self.%s is taken from the configuration in %s but not in setup(): a reload (HUP) leaves the old value in force" % (t.attr, ff.short), "also refreshed by setup()")
+
+
+def env_reset_before_reload(ctx, rid):
+    """reload() undoes the outgoing configuration's raw_env exports *before* the application re-reads its configuration:
+    Config() snapshots os.environ into env_orig and reads GUNICORN_CMD_ARGS from it -- a snapshot taken earlier would
+    make the old raw_env entries (SCRIPT_NAME, GUNICORN_CMD_ARGS, ..) part of the 'original' environment for good"""
+    repo = ctx.repo
+    f = ctx.fn(repo.func(ARB + ".reload"))
+    g = f.cfg
+    ar = [n for c in method_calls(f, "reload") if tail(c.func.value) == "app" for n in nodes_with(f, c)]
+    envw = [n for n in g.nodes if n.kind == "stmt" and isinstance(n.ast, (ast.Assign, ast.Delete)) and
+            any(isinstance(t, ast.Subscript) and rname(f, t.value) == "os.environ" for t in (n.ast.targets if isinstance(n.ast, (ast.Assign, ast.Delete)) else []))]
+    envw += [n for c in method_calls(f, ("pop", "update", "clear", "setdefault")) if rname(f, c.func.value) == "os.environ" for n in nodes_with(f, c)]
+    ctx.check(rid, bool(envw), key(f, "env-reset"), site(f), "reload() does not restore the environment the outgoing configuration's raw_env changed", "os.environ restored from env_orig")
+    if ar and envw:
+        late = [n for n in envw if n in g.reachable(ar, follow_exc=False)]
+        ctx.check(rid, not late, key(f, "env-reset-before-app-reload"), site(f, late[0] if late else envw[0]),
+                  "reload() re-reads the configuration (app.reload()) before it has undone the old raw_env exports: the new Config snapshots a polluted os.environ as env_orig "
+                  "(stale SCRIPT_NAME / GUNICORN_CMD_ARGS survive later reloads and are handed to a re-exec'ed master)", "environment reset precedes app.reload()")
+
+
 def r2(ctx):
     repo = ctx.repo
     f = ctx.fn(repo.func(ARB + ".reload"))
@@ -153,15 +198,8 @@ def r2(ctx):
             (cfg_attr(loop.iter.args[0]) == "workers" or tail(loop.iter.args[0]) == "num_workers")
         ctx.check("C10.R2", okk, key(f, "full-new-generation"), site(f, sp[0]), "reload does not spawn a full new generation of cfg.workers workers: old workers would remain in the pool",
                   "spawns cfg.workers new workers")
-    # setup() takes num_workers / timeout / worker_class from the new cfg
-    fs = ctx.fn(repo.func(ARB + ".setup"))
-    for attr, cfgname in (("num_workers", "workers"), ("timeout", "timeout"), ("worker_class", "worker_class"), ("cfg", None), ("app", None)):
-        st = [x for x in walk_own(fs.node) if isinstance(x, ast.Assign) and any(tail(t) == attr and tail(getattr(t, "value", None)) == "self" for t in x.targets)]
-        okk = bool(st) and (cfgname is None or any(cfg_attr(x.value) == cfgname for x in st))
-        sn = [n for x in st for n in fs.cfg.nodes_of(x)]
-        p = fs.cfg.path(fs.cfg.entry, [fs.cfg.exit], without_nodes=sn, follow_exc=False) if sn else [fs.cfg.entry]
-        ctx.check("C10.R2", okk and p is None, key(fs, "setup|" + attr), site(fs), "setup() does not refresh self.%s from the (new) configuration on every path (conditional or missing assignment): "
-                  "after a reload the arbiter keeps the old value" % attr, "self.%s refreshed unconditionally" % attr, path=(p and fs.cfg.fmt_path(p)) if sn else None)
+    setup_refresh(ctx, "C10.R2", (("num_workers", "workers"), ("timeout", "timeout"), ("worker_class", "worker_class"), ("cfg", None), ("app", None)))
+    env_reset_before_reload(ctx, "C10.R2")
     # app.reload -> do_load_config -> load_default_config builds a new Config
     fr = ctx.fn(repo.func(APP + ".BaseApplication.reload"))
     ctx.check("C10.R2", bool(calls_to(repo, fr, APP + ".BaseApplication.do_load_config")), key(fr, "reloads-config"), site(fr), "Application.reload does not re-run do_load_config", "do_load_config()")
